@@ -102,6 +102,20 @@ def check_dataset(ctx, case):
         classes.append("merged_mate_pair")
     if any(len(b["read_groups"]) > 1 for b in spec["bams"]):
         classes.append("several_read_groups_per_file")
+    if spec.get("fasta_lowercase"):
+        classes.append("layout:soft_masked_fasta")
+    if spec.get("split_snv_records") and any(len(s_["alleles"]) > 2 for s_ in spec["snvs"]):
+        classes.append("layout:multiallelic_snv_split_over_records")
+    if any(l["start"] == 0 for l in spec["loci"]):
+        classes.append("layout:locus_at_contig_start")
+    clen = {c["name"]: len(c["seq"]) for c in spec["contigs"]}
+    if any(l["stop"] == clen[l["contig"]] for l in spec["loci"]):
+        classes.append("layout:locus_at_contig_end")
+    if any(l["stop"] - l["start"] <= 3 for l in spec["loci"]):
+        classes.append("layout:tiny_locus")
+    srt = sorted(spec["loci"], key=lambda l: (l["contig"], l["start"]))
+    if any(a["contig"] == b["contig"] and b["start"] < a["stop"] for a, b in zip(srt, srt[1:])):
+        classes.append("layout:overlapping_loci")
     ctx.record(case, bool(filtered and indel_over and merged), classes)
     wd = os.path.join(common.work_dir(), "c06")
     shutil.rmtree(wd, ignore_errors=True)
@@ -340,7 +354,7 @@ def config(draw, spec):
 
 @st.composite
 def dataset_case(draw):
-    spec = draw(D.dataset_spec())
+    spec = draw(D.dataset_spec(exotic=True))
     return {"kind": "dataset", "spec": spec, "cfg": draw(config(spec))}
 
 
